@@ -51,7 +51,7 @@ Step ==
   /\ l <= Len(Log)
   /\ l' = l + 1
   /\ UNCHANGED <<Mode, obj, phase, st>>
-  /\ LET v == Verdict(Log[l]) IN
+  /\ \E v \in {Verdict(Log[l])} :                  \* (a singleton: the verdict is evaluated once)
      /\ agree' = IF v[1] = "agree" THEN agree + 1 ELSE agree
      /\ outside' = IF v[1] = "outside" THEN outside + 1 ELSE outside
      /\ bad' = IF v[1] = "bad" THEN Append(bad, v[2]) ELSE bad
